@@ -578,7 +578,7 @@ def main():
             cdir = os.path.join(VERIF, 'corpus', 'regress')
             if os.path.isdir(cdir):
                 for f in sorted(os.listdir(cdir)):
-                    if f.endswith('.case') and (f.startswith(pid) or f.startswith('all')):
+                    if f.endswith('.case') and (pid in f.split('_')[0] or f.startswith('all')):
                         runs.append(('corpus:' + f, run_case_file(os.path.join(cdir, f), with_ref=P.get('ref', False))))
             # the fixed input of every recorded finding of this property (known_findings.json): a failure there is
             # reported as KNOWN-FINDING while it stays open, and as a VIOLATION again if a fixed one returns
